@@ -1,11 +1,14 @@
 from props.common import *
+from props.boundedrun import script
 ID = "C09"
 LEVEL = "proof"
 TAGS = ("C09",)
 CONTRACT_MODULES = ALL_CONTRACTS
 FUNCTIONS = HANDLER_FUNCS + [H + "planArc", H + "computeArcCenterOffsets", H + "handleAtCommand"] + MOTION_FUNCS + [S + "disableExclusion", S + "processExtendedGcode", S + "_processExtendedGcodeEntry", S + "_processPendingCommands"] + AXIS_FUNCS[1:4] + ["GcodeParser.formatNumber"]
 ASSUMPTIONS = ["A1", "A2", "A3", "A4", "INDUCTION"]
-EXTRA_ASSUMPTIONS = ["'after the axes have been homed' = invariant I-type (all tracked positions known, consistent units), established by G28 and preserved by every handler",
+BOUNDED = [script("split_script.py")]
+EXTRA_ASSUMPTIONS = ["configured script lines are non-empty commands (A5): that _splitGcodeScript drops blank and comment-only lines is checked bounded (bounded/split-script)",
+                     "'after the axes have been homed' = invariant I-type (all tracked positions known, consistent units), established by G28 and preserved by every handler",
                      "not reachable by this technique (stated gap): float overflow to inf/NaN (e.g. int(math.ceil(inf))), time and memory for astronomically long arcs",
                      "parameter spellings: the handlers see the parser's abstract item sequence; that parsing never raises is part of C18/C19"]
 EXPLANATION = ("Every implicit obligation generated while executing the handlers' call graph -- no ZeroDivisionError, no None in "
